@@ -355,6 +355,15 @@ def run_shard(shard, tier, acc):
         check_spellings(acc, shard[1])
         return
     if shard[0] == "unicode":
+        # keys holding characters with a meaning in regular expressions / templates: matched literally
+        RK = ["author", "author+an", "a.b", "axb", "a|b", "k(1)", "%s", "{0}", "title"]
+        for n in (1, 2, 3):
+            for keys in itertools.product(RK, repeat=n):
+                for order in (("author", "author+an", "title"), ("a.b",), ("k(1)", "a|b"), ("%s", "{0}"), ("title", "a.b", "axb")):
+                    rank = lambda k, o=order: o.index(k) if k in o else len(o)
+                    run_one(keys, f"custom:{','.join(order)}:cs", lambda ip, o=order: SortFieldsCustomMiddleware(order=tuple(o), case_sensitive=True, allow_inplace_modification=ip), acc, rank)
+                    rank2 = lambda k, o=order: o.index(k.lower()) if k.lower() in o else len(o)
+                    run_one(keys, f"custom:{','.join(order)}:ci", lambda ip, o=order: SortFieldsCustomMiddleware(order=tuple(o), allow_inplace_modification=ip), acc, rank2)
         UK = ["Stra\xdfe", "strasse", "STRASSE", "stra\xdfe", "\u017f", "s", "\u0130", "i\u0307", "\xc9", "\xe9", "e\u0301"]
         for n in (1, 2, 3):
             for keys in itertools.product(UK, repeat=n):
